@@ -369,6 +369,25 @@ def t_default_regexes_trusted():
     if not isinstance(regs, list) or not regs:
         bad("T-default-regexes", type(regs), "not a non-empty list")
         return
+    # the function is plumbing over four finite tables: its result is checked completely against them
+    from netconan import default_pwd_regexes as dpr
+    tables = [("aws_regexes", getattr(sir, "aws_regexes", None)),
+              ("default_pwd_line_regexes", getattr(dpr, "default_pwd_line_regexes", getattr(sir, "default_pwd_line_regexes", None))),
+              ("default_com_line_regexes", getattr(dpr, "default_com_line_regexes", getattr(sir, "default_com_line_regexes", None))),
+              ("extra_password_regexes", getattr(sir, "extra_password_regexes", None))]
+    if all(t is not None for _, t in tables):
+        expect = [g for _, t in tables for g in t]
+        ok()
+        if len(regs) != len(expect):
+            bad("T-default-regexes", (len(regs), len(expect)), "number of regex groups differs from the four tables")
+        else:
+            for got_g, exp_g in zip(regs, expect):
+                ok()
+                if [(c.pattern, n) for c, n in got_g] != [(sir._ALLOWED_REGEX_PREFIX + r_, n) for r_, n in exp_g]:
+                    bad("T-default-regexes", [c.pattern for c, n in got_g][:1], "group is not prefix + table entry, in table order")
+                    break
+    else:
+        bad("T-default-regexes", [n for n, t in tables if t is None], "regex table not found")
     for grp in regs:
         for item in grp:
             ok()
